@@ -114,6 +114,30 @@ def _digit_guarded(f, call):
     return False
 
 
+def _facts_imply(facts, goal):
+    """Do the tests known to have succeeded / failed on every path (text -> truth) imply the goal?  Integer comparisons: `a >= b` is `not a < b`."""
+    import sa.boolnf as B
+    goal_names = {n.id for n in ast.walk(ast.parse(goal, mode='eval')) if isinstance(n, ast.Name)}
+    parts = []
+    for t, v in facts.items():
+        try:
+            e = ast.parse(t, mode='eval').body
+        except SyntaxError:
+            continue
+        if goal_names & {n.id for n in ast.walk(e) if isinstance(n, ast.Name)}:
+            parts.append(f'({t})' if v else f'(not ({t}))')
+    if not parts:
+        return False
+    old = B.TOTAL_ORDER
+    B.TOTAL_ORDER = True
+    try:
+        return bool(B.implies(' and '.join(parts), goal))
+    except Exception:
+        return False
+    finally:
+        B.TOTAL_ORDER = old
+
+
 def _facts_before_call(f, pred):
     '''facts (text -> truth) common to all paths reaching a statement that contains a call satisfying pred; plus events'''
     def is_target(s):
@@ -208,10 +232,11 @@ def check_v2_guards(model, rep):
     # trace
     f = fn('_trace')
     facts, calls, n = _facts_before_call(f, lambda c: src(c.func) == 'self.array.trace')
-    need(f, 'trace: more-than-twice', facts.get('index in summed_indices') is False, '`trace` is reached only for an index that was not summed before',
+    # decided on what the tests passed on the way imply (sa.boolnf over integers), not on how the guards are spelled or nested
+    need(f, 'trace: more-than-twice', _facts_imply(facts, 'not (index in summed_indices)'), '`trace` is reached only for an index that was not summed before',
          '`trace` can be reached for an index that was already summed: a third occurrence is silently traced')
-    need(f, 'trace: lengths', facts.get('shape[i] != shape[j]') is False, '`trace` is reached only for axes of equal length', 'axes of different length can be traced')
-    need(f, 'trace: order', facts.get('i < j') is True, 'the first occurrence precedes the repeated one', 'trace positions changed')
+    need(f, 'trace: lengths', _facts_imply(facts, 'not (shape[i] != shape[j])'), '`trace` is reached only for axes of equal length', 'axes of different length can be traced')
+    need(f, 'trace: order', _facts_imply(facts, 'i < j'), 'the first occurrence precedes the repeated one', 'trace positions changed')
     wl = [s for s in find_stmts(f.body, lambda s: isinstance(s, ast.While))]
     txt = src(f.node)
     ok = 'summed_indices.add(index)' in txt and 'shape = shape[:i] + shape[i + 1:j] + shape[j + 1:]' in txt and 'indices = indices[:i] + indices[i + 1:j] + indices[j + 1:]' in txt
@@ -258,6 +283,97 @@ def check_v2_guards(model, rep):
     need(g, 'merge-summed', ok, 'an index summed in two factors of one term raises', '_merge_summed_indices_same_term no longer rejects an index summed twice')
 
 
+def _is_outer_product_fold(ops, mul):
+    """multiply(*args) folds the arguments from the left with  (acc, nxt) -> numpy.multiply(self.append_axes(acc, numpy.shape(nxt)), nxt):
+    as a loop over args[1:] that starts from args[0], or as functools.reduce of a lambda / of a method of the same class."""
+    def step_ok(expr, acc, nxt):
+        return expr is not None and src(expr) in (f'numpy.multiply(self.append_axes({acc}, numpy.shape({nxt})), {nxt})', f'self.append_axes({acc}, numpy.shape({nxt})) * {nxt}',
+                                                  f'numpy.multiply(self.append_axes({acc}, {nxt}.shape), {nxt})', f'self.append_axes({acc}, {nxt}.shape) * {nxt}')
+    for loop in (n for n in ast.walk(mul.node) if isinstance(n, ast.For)):
+        if src(loop.iter) == 'args[1:]' and isinstance(loop.target, ast.Name) and len(loop.body) == 1 and isinstance(loop.body[0], ast.Assign) \
+                and len(loop.body[0].targets) == 1 and isinstance(loop.body[0].targets[0], ast.Name):
+            acc = loop.body[0].targets[0].id
+            inits = [s_ for s_ in mul.body if isinstance(s_, ast.Assign) and src(s_.targets[0]) == acc and s_.lineno < loop.lineno]
+            rets = find_stmts(mul.body, lambda s_: isinstance(s_, ast.Return))
+            if len(inits) == 1 and src(inits[0].value) == 'args[0]' and len(rets) == 1 and src(rets[0].value) == acc and step_ok(loop.body[0].value, acc, loop.target.id):
+                return True
+    R = resolved_return(mul.node)
+    m = pmatch('functools.reduce(F_, args[1:], args[0])', R) or pmatch('functools.reduce(F_, args)', R)
+    if m is None:
+        return False
+    F = m['F_']
+    if isinstance(F, ast.Lambda) and len(F.args.args) == 2 and not F.args.defaults:
+        return step_ok(F.body, F.args.args[0].arg, F.args.args[1].arg)
+    if isinstance(F, ast.Attribute) and src(F.value) == 'self' and F.attr in ops.members and ops.members[F.attr].func is not None:
+        h = ops.members[F.attr].func
+        ps = [a.arg for a in h.node.args.args]
+        if len(ps) == 3 and ps[0] == 'self':
+            return step_ok(resolved_return(h.node), ps[1], ps[2])
+    return False
+
+
+def _index_segments(expr, env):
+    """An integer index vector as a list of ranges (start, length): K + arange(N), arange(A, B), arange(K), their concatenation."""
+    from sa.algebra import Poly, translate, Unsupported
+    funcs = {'len': ('fn', 'len'), 'numpy.ndim': ('fn', 'ndim')}
+
+    def num(e):
+        class T(ast.NodeTransformer):
+            def visit_Attribute(self, n):   # X.ndim is numpy.ndim(X)
+                self.generic_visit(n)
+                if n.attr == 'ndim' and isinstance(n.value, ast.Name) and n.value.id != 'numpy':
+                    return ast.Call(func=ast.Attribute(value=ast.Name(id='numpy', ctx=ast.Load()), attr='ndim', ctx=ast.Load()), args=[n.value], keywords=[])
+                return n
+        import copy
+        return translate(ast.fix_missing_locations(T().visit(copy.deepcopy(e))), env, funcs)
+
+    def seg(e):
+        if isinstance(e, ast.Call) and src(e.func) in ('numpy.arange', 'range') and not e.keywords and 1 <= len(e.args) <= 2:
+            if len(e.args) == 1:
+                return [(Poly.const(0), num(e.args[0]))]
+            a, b = num(e.args[0]), num(e.args[1])
+            return [(a, b - a)]
+        if isinstance(e, ast.Call) and src(e.func) in ('list', 'tuple', 'numpy.array', 'numpy.asarray') and len(e.args) == 1 and not e.keywords:
+            return seg(e.args[0])
+        if isinstance(e, ast.Call) and src(e.func) in ('numpy.concatenate', 'numpy.hstack') and len(e.args) == 1 and not e.keywords and isinstance(e.args[0], (ast.List, ast.Tuple)):
+            return [x for a in e.args[0].elts for x in seg(a)]
+        if isinstance(e, (ast.List, ast.Tuple)) and all(isinstance(x, ast.Starred) for x in e.elts):
+            return [x for a in e.elts for x in seg(a.value)]
+        if isinstance(e, ast.BinOp) and isinstance(e.op, ast.Add):
+            # K + arange(N) shifts a range; list(range) + list(range) concatenates
+            for a, b in ((e.left, e.right), (e.right, e.left)):
+                try:
+                    k = num(a)
+                except Unsupported:
+                    continue
+                r = seg(b)
+                if len(r) == 1 and not (isinstance(b, ast.Call) and src(b.func) in ('list', 'tuple')):
+                    return [(r[0][0] + k, r[0][1])]
+            if all(isinstance(x, ast.Call) and src(x.func) in ('list', 'tuple') or isinstance(x, (ast.List, ast.Tuple)) for x in (e.left, e.right)):
+                return seg(e.left) + seg(e.right)
+        raise Unsupported(src(e)[:60])
+    try:
+        return seg(expr)
+    except Unsupported:
+        return None
+
+
+def _appends_axes(ap):
+    """append_axes(array, shape) broadcasts `array` to shape + array.shape and then moves the len(shape) new leading axes behind the
+    axes of `array`: the transposition is [k, ..., k+n-1, 0, ..., k-1] with k = len(shape), n = ndim(array), however it is spelled."""
+    from sa.algebra import Poly
+    R = resolved_return(ap.node)
+    m = None
+    for bshape in ('shape + numpy.shape(array)', 'shape + array.shape', '(*shape, *numpy.shape(array))', '(*shape, *array.shape)'):
+        m = m or pmatch(f'numpy.transpose(numpy.broadcast_to(array, {bshape}), S_)', R) or pmatch(f'numpy.broadcast_to(array, {bshape}).transpose(S_)', R)
+    if m is None:
+        return False
+    env = {'shape': Poly.atom('shape'), 'array': Poly.atom('array')}
+    segs = _index_segments(m['S_'], env)
+    k, n = Poly.atom('len(shape)'), Poly.atom('ndim(array)')
+    return segs is not None and [(a.terms, b.terms) for a, b in segs] == [(k.terms, n.terms), (Poly.const(0).terms, k.terms)]
+
+
 def check_v2_tables(model, rep):
     p = model.cls('expression_v2:_Parser')
     f = p.members['parse_item'].func
@@ -289,10 +405,10 @@ def check_v2_tables(model, rep):
     ok = pmatch('functools.reduce(numpy.add, (-A_ if N_ else A_ for N_, A_ in args))', resolved_return(add.node)) is not None
     rep.ob('R19.3', add.key, add.where(), ok, 'add negates the terms preceded by minus and sums' if ok else 'the add operation changed', statement='op add')
     mul = ops.members['multiply'].func
-    ok = 'numpy.multiply(self.append_axes(result, numpy.shape(arg)), arg)' in src(mul.node)
+    ok = _is_outer_product_fold(ops, mul)
     rep.ob('R19.3', mul.key, mul.where(), ok, 'juxtaposition is the outer product in reading order' if ok else 'the multiply operation no longer forms the outer product in reading order', statement='op multiply')
     ap = ops.members['append_axes'].func
-    ok = 'numpy.concatenate([len(shape) + numpy.arange(numpy.ndim(array)), numpy.arange(len(shape))])' in src(ap.node) and 'numpy.broadcast_to(array, shape + numpy.shape(array))' in src(ap.node)
+    ok = _appends_axes(ap)
     rep.ob('R19.3', ap.key, ap.where(), ok, 'append_axes appends (not prepends) the new axes', statement='op append_axes')
     al = ops.members['align'].func
     ok = 'tuple(map(in_indices.index, out_indices))' in src(al.node)
